@@ -1,7 +1,3 @@
 #!/bin/bash
-# usage: try_seed.sh <seed-name> <PROP>...   apply seeded patch to /repo, run checks, revert
-S=/verif/seeded/$1; shift
-git -C /repo status --short | grep -q . && { echo "/repo dirty"; exit 2; }
-git -C /repo apply $S/patch.diff || { echo "patch failed"; exit 2; }
-for p in "$@"; do /verif/check $p 2>&1 | grep -E "VIOLATION|KNOWN|obligations" ; done
-git -C /repo checkout -- .
+# usage: try_seed.sh <seed-name>...   evaluate seeded patches on scratch copies of /repo (never modifies /repo; see seed_matrix.py)
+exec python3 /verif/tools/seed_matrix.py -j 2 "$@"
